@@ -13,6 +13,16 @@ import (
 // Key MATE1 (C13): SEARCH cases whose last search starts from a position with a mate in one.
 func init() { props["MATE1"] = common.Prop{Gen: mate1Gen, Run: searchRun} }
 
+// withClock replaces the half-move clock field of a FEN.
+func withClock(fen string, h int) string {
+	f := strings.Fields(fen)
+	if len(f) < 6 {
+		return fen
+	}
+	f[4] = fmt.Sprint(h)
+	return strings.Join(f, " ")
+}
+
 func hasMateInOne(p *position.Position, legal []move.Move) bool {
 	for _, m := range legal {
 		q := *p
@@ -46,6 +56,13 @@ func mate1Gen(r *common.Rng, n int, shard int, out *common.Out) {
 				out.Line("%s", spec(f, "", d, 0))
 				out.Line("%s", spec(f, "", d, 3+d))
 			}
+			// the half-move clock is a free component of a legal position: checkmate on the hundredth
+			// half move is still checkmate
+			for _, h := range []int{98, 99} {
+				out.Line("%s", spec(withClock(f, h), "", 1, -1))
+				out.Line("%s", spec(withClock(f, h), "", 2, 0))
+				out.Line("%s", spec(withClock(f, h), "", 3, 7))
+			}
 		}
 	}
 	starts := poslib.StartPositions()
@@ -65,10 +82,15 @@ func mate1Gen(r *common.Rng, n int, shard int, out *common.Out) {
 			if len(legal) > 0 && poslib.NaiveInv(p) == "" && poslib.MaterialOK(p) && hasMateInOne(p, legal) {
 				depth := 1 + r.Intn(3)
 				c := spec(startName, strings.Join(moves, " "), depth, pickCancel())
+				if r.Chance(1, 3) {
+					// the same placement loaded from FEN with another half-move clock (up to 99)
+					h := []int{99, 98, 97, r.Intn(100)}[r.Intn(4)]
+					c = spec(withClock(p.ToFen(), h), "", depth, pickCancel())
+				}
 				if warm != "" && r.Chance(1, 2) {
 					c = warm + " ;; " + c
 				}
-				out.Line("%s", c)
+				out.Line("%s", strings.Join(capCost(strings.Split(c, " ;; ")), " ;; "))
 				cnt++
 			}
 			if m == move.NullMove || cnt >= n {
